@@ -417,7 +417,7 @@ def discharge_call(P, f, sym, c):
         # dominated by a discriminant test on the same receiver excluding the partial variants
         for (a, lab) in f.edge_dominators(c.bb):
             o2, outcome = f.cond_struct(a, lab)
-            if f.describe_origin(o2, deep=1) == txt.replace(".deref", "") or f.describe_origin(o2, deep=1) == txt:
+            if f.describe_origin(o2, deep=1).replace(".deref", "") == txt.replace(".deref", ""):
                 alts = set(outcome.split("|"))
                 if not (alts & bad):
                     return True, "receiver variant is one of %s (the partial variants %s are excluded by a dominating test)" % (sorted(alts)[:3], sorted(bad)), sp
